@@ -20,8 +20,10 @@ Prog = collections.namedtuple('Prog', 'outer calls context route taint')
 
 CONTEXTS = ('return', 'assign', 'if', 'ifelse', 'tryfinally', 'tryexcept', 'with', 'listcomp',
             'nested', 'lambda', 'decoy_before', 'decoy_after',
-            'arg_of_call', 'nested_arg_of_call', 'lambda_arg_of_call', 'nested2', 'result_attr', 'ifelse_unres')
-NESTED_CONTEXTS = ('nested', 'lambda', 'nested_arg_of_call', 'lambda_arg_of_call', 'nested2')
+            'arg_of_call', 'nested_arg_of_call', 'lambda_arg_of_call', 'nested2', 'result_attr', 'ifelse_unres',
+            'nested_ifelse_arg', 'decoy_shadow_nonlocal')
+NESTED_CONTEXTS = ('nested', 'lambda', 'nested_arg_of_call', 'lambda_arg_of_call', 'nested2', 'nested_ifelse_arg')
+TWO_BRANCH_CONTEXTS = ('ifelse', 'ifelse_unres', 'nested_ifelse_arg')
 ROUTES = ('global', 'closure', 'attr1', 'attr2', 'method', 'param', 'partial', 'wrapsdeco')
 TAINTS_ANY = ('rebind', 'augassign', 'delrebind', 'fortarget', 'withas', 'walrus', 'starunpack', 'nonlocal',
               'importas', 'fromimportas', 'defname', 'classname', 'matchcapture', 'matchstar')
@@ -44,7 +46,7 @@ def callee_ref(route, uid, j):
         return 'NS.sub.' + base
     if route == 'method':
         return 'self.' + base
-    if route in ('param', 'param_kw', 'param_default', 'param_method'):
+    if route in ('param', 'param_kw', 'param_default', 'param_method', 'method_default'):
         return 'fn%d' % j
     if route == 'partial':
         return base
@@ -132,8 +134,13 @@ def body_lines(prog, uid):
     if ctx in ('ifelse', 'ifelse_unres'):
         e1 = E[1] if len(E) > 1 else E[0]
         core = ['if FLAG:', '    r = ' + e0, 'else:', '    r = ' + e1]
+    elif ctx == 'nested_ifelse_arg':
+        # two forwarding calls in a nested function, the first one written inside the arguments of another call
+        e1 = E[1] if len(E) > 1 else E[0]
+        return (['def h_():', '    if FLAG:', '        return IDENT(' + e0 + ')', '    return ' + e1]
+                + before + ['r = h_()'] + after + ['return r'])
     elif len(E) > 1:
-        raise AssertionError('two calls only in the ifelse context')
+        raise AssertionError('two calls only in the two-branch contexts')
     elif ctx == 'return':
         core = ['r = ' + e0] if (before or after) else None
         if core is None:
@@ -169,6 +176,12 @@ def body_lines(prog, uid):
         core = ['DECOY(1, x=2)', 'r = ' + e0]
     elif ctx == 'decoy_after':
         core = ['r = ' + e0, 'DECOY(r)']
+    elif ctx == 'decoy_shadow_nonlocal':
+        # a helper with locals named like the wrapper's stars, rebound from a second-level helper through nonlocal:
+        # Python binds nonlocal to the nearest enclosing scope, the wrapper's own stars stay pristine
+        stars = [nm for nm in (star(prog.outer, VA), star(prog.outer, VK)) if nm]
+        core = (['def h_():'] + ['    %s = 0' % nm for nm in stars] + ['    def g_():', '        nonlocal ' + ', '.join(stars)]
+                + ['        %s = 1' % nm for nm in stars] + ['    g_()', '    return ' + ' or '.join(stars), 'h_()', 'r = ' + e0])
     else:
         raise AssertionError(ctx)
     return before + core + after + ['return r']
@@ -224,6 +237,14 @@ def render(prog, uid):
         lines.extend(ind * 2 + ln for ln in body_lines(prog, uid))
         lines.append('W%s = functools.partial(K%s().F, C%s_0)' % (uid, uid, uid))
         return '\n'.join(lines) + '\n'
+    if prog.route == 'method_default':
+        # the forwarder is a bound method (discovery starts with self known); the callee is only the default value of a
+        # keyword-only parameter: a caller may replace it, nothing about the default may be advertised
+        sh2 = tuple(p for p in prog.outer if p[1] != VK) + (('fn0', KWO, True),) + tuple(p for p in prog.outer if p[1] == VK)
+        lines.append('class K%s(object):' % uid)
+        lines.append(ind + 'def W%s(self, %s):' % (uid, space.render(sh2, {'fn0': 'C%s_0' % uid})))
+        lines.extend(ind * 2 + ln for ln in body_lines(prog, uid))
+        return '\n'.join(lines) + '\n'
     if prog.route in ('param_kw', 'param_default'):
         # the callee arrives through a keyword-only parameter fn0: bound by keyword / only a default value
         opt = prog.route == 'param_default'
@@ -249,6 +270,9 @@ def target(batch, prog, uid):
         cls = batch.get('K%s' % uid)
         inst = cls()
         return getattr(inst, 'W%s' % uid), [getattr(inst, 'C%s_%d' % (uid, j)) for j in range(len(prog.calls))], inst
+    if prog.route == 'method_default':
+        inst = batch.get('K%s' % uid)()
+        return getattr(inst, 'W%s' % uid), [batch.get('C%s_%d' % (uid, j)) for j in range(len(prog.calls))], inst
     w = batch.get('W%s' % uid)
     return w, [batch.get('C%s_%d' % (uid, j)) for j in range(len(prog.calls))], None
 
